@@ -20,6 +20,7 @@ use byteorder::ReadBytesExt;
 
 use super::constants::*;
 use super::error::*;
+use super::functions::is_jsonb;
 use super::jentry::JEntry;
 use super::number::Number;
 use super::parser::parse_value;
@@ -54,6 +55,11 @@ use super::value::Value;
 ///
 ///    Decode `JSONB` Value from binary bytes.
 pub fn from_slice(buf: &[u8]) -> Result<Value<'_>, Error> {
+    // JSON text that does not start with a `JSONB` header byte must not be tried as binary,
+    // the decoder only looks at the top three bits of the header and would misread it.
+    if !is_jsonb(buf) {
+        return parse_value(buf);
+    }
     let mut decoder = Decoder::new(buf);
     match decoder.decode() {
         Ok(value) => Ok(value),
